@@ -4,6 +4,8 @@ import Holpy.C06.Model
 Line protocol of the C06 model (one s-expression in, one out):
   (solve VARS (A ...) C)   -> (ok Z ...) | (error z3exc|crash)      assertion list of solve_core
   (convert VARS T)         -> (ok Z (Z ...)) | (error E (Z ...))    result and the assms table
+  (sgoal neq DIVOK NZ) | (sgoal eq DIVOK NA NB) | (sgoal rel DIVOK TRUE)   -> T|F   solveGoal
+  (sinterval neq|rel|eq (FLAG ...) MAIN)                                   -> T|F   solveWithInterval
 VARS = ((name TY) ...) free variables in `term.get_vars` order (function variables included).
 TY = bool | nat | int | real | (tv a) | fun;  H / Z terms: see `hOf` / `zTo`.
 -/
@@ -19,14 +21,16 @@ def tyOf : Sexp → Option Ty
 
 partial def hOf : Sexp → Option H
   | .atom "tt" => some .tt | .atom "ff" => some .ff
-  | .atom "eqfun" => some .eqFun | .atom "unsup" => some .unsup
+  | .atom "eqfun" => some (.eqFun 0) | .atom "unsup" => some (.unsup 0)
+  | .list [.atom "eqfun", k] => do some (.eqFun (← k.toNat?))
+  | .list [.atom "unsup", k] => do some (.unsup (← k.toNat?))
   | .list [.atom "var", .atom x, T] => do some (.var x (← tyOf T))
   | .list [.atom "bv", i] => do some (.bv (← i.toNat?))
   | .list [.atom "num", T, p, q] => do
       let p ← p.toInt?; let q ← q.toNat?
       some (.num (← tyOf T) (mkRat p q))
   | .list [.atom "not", a] => do some (.not (← hOf a))
-  | .list [.atom "neg", a] => do some (.neg (← hOf a))
+  | .list [.atom "neg", n, a] => do some (.neg (← n.toBool?) (← hOf a))
   | .list [.atom "ofnat", a] => do some (.ofNat (← hOf a))
   | .list [.atom "ofnatvar", .atom x] => some (.ofNatVar x)
   | .list [.atom "abs", r, a] => do some (.abs (← r.toBool?) (← hOf a))
@@ -100,6 +104,34 @@ def handle (line : String) : String :=
       match convert t { varNames := vs.map (·.1), assms := [], toReal := [] } with
       | (.ok r, st) => toString (Sexp.list [.atom "ok", zTo r.toZ, .list (st.assms.map (zTo ·.2))])
       | (.error e, st) => toString (Sexp.list [.atom "error", errTo e, .list (st.assms.map (zTo ·.2))])
+    | _, _ => "bad-op"
+  | some (.list [.atom "sgoal", .atom "neq", dk, nz]) =>
+    -- decision logic of solve_goal on ¬(a = b): E := Int, norm := id, the difference is nonzero iff NZ
+    match dk.toBool?, nz.toBool? with
+    | some dk, some nz =>
+      toString (Sexp.ofBool (solveGoal (E := Int) id (· - ·) dk (fun d => d != 0) (fun _ => false) (.neq (if nz then 1 else 0) 0)))
+    | _, _ => "bad-op"
+  | some (.list [.atom "sgoal", .atom "eq", dk, na, nb]) =>
+    match dk.toBool?, na.toInt?, nb.toInt? with
+    | some dk, some na, some nb =>
+      toString (Sexp.ofBool (solveGoal (E := Int) id (· - ·) dk (fun _ => false) (fun _ => false) (.eq na nb)))
+    | _, _, _ => "bad-op"
+  | some (.list [.atom "sgoal", .atom "rel", dk, tr]) =>
+    match dk.toBool?, tr.toBool? with
+    | some dk, some tr =>
+      toString (Sexp.ofBool (solveGoal (E := Int) id (· - ·) dk (fun _ => false) (fun r => r == 1) (.rel (if tr then 1 else 0))))
+    | _, _ => "bad-op"
+  | some (.list [.atom "sinterval", .atom kind, .list flags, main]) =>
+    -- solve_with_interval: divisors / domain conditions numbered 1.., their checks given as flags; 0 is the main query
+    match flags.mapM Sexp.toBool?, main.toBool? with
+    | some fl, some mn =>
+      let zf : Int → Bool := fun d => if d == 0 then mn else (fl.getD (d.toNat - 1) false)
+      let divs : List Int := (List.range fl.length).map (fun (i : Nat) => Int.ofNat i + 1)
+      let g : Option (SGoal Int) := match kind with
+        | "neq" => some (.neq 0 0) | "rel" => some (.rel 0) | "eq" => some (.eq 0 0) | _ => none
+      match g with
+      | some g => toString (Sexp.ofBool (solveWithInterval (E := Int) id (· - ·) divs zf zf g))
+      | none => "bad-op"
     | _, _ => "bad-op"
   | _ => "bad-op"
 
